@@ -474,6 +474,20 @@ def with_context(I, cm, body, frame, optional_vars, node):
             else:
                 run(exi, [cm, None, None, None])
             return
+    import contextlib as _contextlib
+
+    if isinstance(cm, _contextlib.suppress):
+        # contextlib.suppress(*exceptions): the body's exception is swallowed iff it is an instance of one of them
+        if optional_vars is not None:
+            I.assign(optional_vars, None, frame)
+        try:
+            I.exec_block(body, frame)
+        except PyRaise as pr:
+            excs = tuple(cm._exceptions)
+            if excs and isinstance(pr.exc.cls, type) and issubclass(pr.exc.cls, excs):
+                return
+            raise
+        return
     raise Unsupported(f"with-statement over {cm!r}")
 
 
